@@ -23,6 +23,11 @@ type Obs struct {
 // Log is the observation log of the current run.
 var Log []Obs
 
+// Uncaught collects the controls handed to the VM's uncaught-error hook
+// (vm.ThrowControl) during the current run. The CLI's hook prints the
+// diagnostic and exits with status 1; the harness hook records instead.
+var Uncaught []data.Control
+
 func observe(v data.Value) Obs {
 	switch x := v.(type) {
 	case *data.IntValue:
@@ -100,6 +105,7 @@ func Compile(src string) *Script {
 	for _, b := range Builtins {
 		vm.AddFunc(b())
 	}
+	vm.SetThrowControl(func(acl data.Control) { Uncaught = append(Uncaught, acl) })
 	prog, acl := p.ParseString(src, "t.zy")
 	s := &Script{Src: src, P: p, VM: vm, Prog: prog, Err: acl}
 	if acl == nil {
@@ -118,6 +124,7 @@ type Bind struct {
 // The observation log is reset first; echo output is appended as 'O' records.
 func (s *Script) Run(binds ...Bind) (data.GetValue, data.Control) {
 	Log = Log[:0]
+	Uncaught = Uncaught[:0]
 	data.WriteOutput = func(str string) { Log = append(Log, Obs{Kind: 'O', S: str}) }
 	ctx := s.VM.CreateContext(s.Vars)
 	for _, b := range binds {
@@ -127,7 +134,11 @@ func (s *Script) Run(binds ...Bind) (data.GetValue, data.Control) {
 			}
 		}
 	}
-	return s.Prog.GetValue(ctx)
+	v, ctl := s.Prog.GetValue(ctx)
+	if ctl == nil && len(Uncaught) > 0 {
+		ctl = Uncaught[0] // the script ended with an uncaught throwable
+	}
+	return v, ctl
 }
 
 func Int(v int) data.Value       { return data.NewIntValue(v) }
